@@ -26,11 +26,14 @@ import ocamlbuild
 import shrink
 import vcheck
 import wgslgen
+import cfskel
 
 LEVEL = "proof"
 
+SHAPES = None          # cfskel.Shapes: recogniser of the control-flow encodings (coq/Target/Shapes.v) over every text read
+
 MODEL_FILES = ["Glsl/Syntax.v", "Glsl/Ops.v", "Glsl/Sem.v", "Glsl/Decode.v", "Glsl/Catalogue.v",
-               "Glsl/CatalogueProofs.v", "Glsl/OpTable.v"]
+               "Glsl/CatalogueProofs.v", "Glsl/OpTable.v"] + cfskel.TARGET_FILES
 
 OPTION_SETS = [
     {"version": 430},
@@ -213,6 +216,8 @@ class Validator:
                             self.oof("reader: " + parsed)
                         continue
                     self.stats["texts_read"] += 1
+                    if SHAPES is not None:
+                        SHAPES.add(tag, parsed, {"input.wgsl": src, "output.glsl": ep["text"], "case.json": casej})
                     self.structure_checks(name, src, ep, parsed, ir, oo, own)
                     for mode in modes:
                         for k in range(n_inputs):
@@ -255,6 +260,8 @@ class Validator:
             glres = run_parallel(self.glx, glcases, self.workers)
         for m, g in zip(glmeta, glres):
             self.judge(m, irres[irkeys[m["ik"]]], g)
+        if SHAPES is not None:
+            SHAPES.run()
 
     def structure_checks(self, name, src, ep, parsed, ir, oo, own):
         """version line, binding map, block layout against the IR's offsets"""
@@ -769,6 +776,9 @@ def run(ctx):
     irx = build_tool("irrun", "Extract/IrRunExtract.v", ["IR/Syntax.v", "IR/Decode.v", "IR/Values.v", "IR/Sem.v", "Base", "Gen/IrEnums.v"])
     glx = build_tool("glslrun", "Extract/GlslRunExtract.v", ["Glsl/Syntax.v", "Glsl/Ops.v", "Glsl/Sem.v", "Glsl/Decode.v", "IR/Values.v", "Base"])
     en = glslcorr.enums(tools)
+    global SHAPES
+    SHAPES = cfskel.Shapes(cfskel.build_exe(), "glsl")
+    SHAPES.ctx = ctx
     lap("extracted_tools")
     # ---- differential validation of whole programs
     v = Validator(ctx, tools, irx, glx, en)
@@ -804,6 +814,7 @@ def run(ctx):
     ctx.cov["validation_own_programs"] = own_stats
     ctx.cov["validation_corpus"] = vc.stats
     ctx.cov["validation_generated"] = gstats
+    ctx.cov["control_flow_shapes"] = SHAPES.evidence()
     ctx.cov["programs"] = own_stats["programs"] + vc.stats["programs"] + gstats["programs"]
     ctx.cov["disagreements_checked"] = own_stats["cases"] + vc.stats["cases"] + gstats["cases"]
     ctx.cov["evaluations"] = own_stats["cases"] + vc.stats["cases"] + gstats["cases"] + (gl or {}).get("rows", 0)
